@@ -6,7 +6,13 @@
 package immutable
 
 import (
+	"fmt"
+	"math"
+
+	"github.com/openGemini/openGemini/lib/config"
+	"github.com/openGemini/openGemini/lib/fileops"
 	"github.com/openGemini/openGemini/lib/record"
+	"github.com/openGemini/openGemini/lib/util/lifted/vm/protoparser/influx"
 )
 
 // VerifChunk is the result of the real TsChunkDataImp.EncodeChunk: the chunk bytes and, per column (time last) and
@@ -73,4 +79,133 @@ func VerifDecodeSegment(ref record.Field, data []byte, col *record.ColVal, ascen
 // VerifDecodeTimeSegment decodes one time-column segment the way readers do (appendTimeColumnData).
 func VerifDecodeTimeSegment(data []byte, col *record.ColVal, ascending bool) error {
 	return appendTimeColumnData(data, col, NewReadContext(ascending), true)
+}
+
+// ---- whole data file: MsBuilder -> TSSP file -> reader ----
+
+// VerifWriteTSSP writes the series (ascending ids) with the real MsBuilder into dir/mst and returns the path of the
+// finished (renamed) file, closed.
+func VerifWriteTSSP(dir string, seq uint64, ids []uint64, recs []*record.Record, maxRowsPerSegment int) (string, error) {
+	lock := ""
+	conf := NewTsStoreConfig()
+	conf.SetMaxRowsPerSegment(maxRowsPerSegment)
+	fileName := NewTSSPFileName(seq, 0, 0, 0, true, &lock)
+	msb := NewMsBuilder(dir, "mst", &lock, conf, len(ids), fileName, 0, nil, 2, config.TSSTORE, nil, 0)
+	for i, id := range ids {
+		if err := msb.WriteData(id, recs[i]); err != nil {
+			return "", err
+		}
+	}
+	if err := WriteIntoFile(msb, false, false, nil); err != nil {
+		return "", err
+	}
+	if len(msb.Files) != 1 {
+		return "", fmt.Errorf("%d files", len(msb.Files))
+	}
+	path := msb.Files[0].Path()
+	if err := msb.Files[0].Close(); err != nil {
+		return "", err
+	}
+	return path, nil
+}
+
+// VerifStat is one column's stored pre-aggregation (statistics) as the readers decode it.
+type VerifStat struct {
+	Name       string
+	Type       int
+	Min, Max   uint64 // int64 pattern, float64 bits or 0/1
+	Sum        uint64 // int64 pattern or float64 bits (0 for bool/string/time)
+	MinT, MaxT int64
+	Count      int64
+}
+
+type VerifSeries struct {
+	ID         uint64
+	Segments   []*record.Record
+	TimeRanges [][2]int64
+	Stats      []VerifStat
+}
+
+type VerifFile struct {
+	IDCount          int64
+	MinID, MaxID     uint64
+	MinTime, MaxTime int64
+	Series           []VerifSeries
+}
+
+func verifBits(v interface{}) uint64 {
+	switch x := v.(type) {
+	case int64:
+		return uint64(x)
+	case float64:
+		return math.Float64bits(x)
+	case bool:
+		if x {
+			return 1
+		}
+	}
+	return 0
+}
+
+// VerifReadTSSP reopens the file and reads everything back through the real reader: trailer, meta index, chunk
+// metas (segment time ranges, per-column statistics) and every segment of every series (schema = columns wanted).
+func VerifReadTSSP(path string, schema record.Schemas) (*VerifFile, error) {
+	lock := ""
+	f, err := OpenTSSPFile(path, &lock, true)
+	if err != nil {
+		return nil, err
+	}
+	defer func() { _ = f.Close() }()
+	tr := f.FileStat()
+	out := &VerifFile{IDCount: tr.idCount, MinID: tr.minId, MaxID: tr.maxId, MinTime: tr.minTime, MaxTime: tr.maxTime}
+	n := int(f.MetaIndexItemNum())
+	for i := 0; i < n; i++ {
+		midx, err := f.MetaIndexAt(i)
+		if err != nil {
+			return nil, err
+		}
+		cms, err := f.ReadChunkMetaData(i, midx, nil, fileops.IO_PRIORITY_ULTRA_HIGH)
+		if err != nil {
+			return nil, err
+		}
+		for ci := range cms {
+			cm := &cms[ci]
+			s := VerifSeries{ID: cm.sid}
+			for seg := 0; seg < int(cm.segCount); seg++ {
+				rec := record.NewRecordBuilder(schema)
+				r, err := f.ReadAt(cm, seg, rec, NewReadContext(true), fileops.IO_PRIORITY_ULTRA_HIGH)
+				if err != nil {
+					return nil, err
+				}
+				s.Segments = append(s.Segments, r)
+				s.TimeRanges = append(s.TimeRanges, [2]int64{cm.timeRange[seg].minTime(), cm.timeRange[seg].maxTime()})
+			}
+			for k := range cm.colMeta {
+				col := &cm.colMeta[k]
+				st := VerifStat{Name: col.name, Type: int(col.ty)}
+				var b PreAggBuilder
+				if col.IsTime() {
+					b = acquireTimePreAggBuilder()
+				} else {
+					b = acquireColumnBuilder(int(col.ty))
+				}
+				b.reset()
+				if _, err := b.unmarshal(col.preAgg); err != nil {
+					return nil, err
+				}
+				st.Count = b.count()
+				if !col.IsTime() && int(col.ty) != influx.Field_Type_String { // string and time columns store a count only
+					mn, mnT := b.min()
+					mx, mxT := b.max()
+					st.Min, st.MinT, st.Max, st.MaxT = verifBits(mn), mnT, verifBits(mx), mxT
+					if int(col.ty) != influx.Field_Type_Boolean {
+						st.Sum = verifBits(b.sum())
+					}
+				}
+				s.Stats = append(s.Stats, st)
+			}
+			out.Series = append(out.Series, s)
+		}
+	}
+	return out, nil
 }
